@@ -3,7 +3,7 @@
    first element with that id. *)
 From Coq Require Import ZArith List Lia Bool.
 From Coq Require Import ZifyBool.
-From RTP Require Import Base.Bits Base.Res Base.ListX Base.Tactics Model.RtpPacket Model.HeaderExtViews Spec.Rfc8285
+From RTP Require Import Base.Bits Base.Res Base.ListX Base.Bytes Base.Tactics Model.RtpPacket Model.HeaderExtViews Spec.Rfc8285
   Proofs.ExtLoop.
 Import ListNotations.
 Open Scope Z_scope.
@@ -117,3 +117,36 @@ Qed.
 (* ... which is what the accessors of the decoded Header report *)
 Lemma header_lookup h id : extension h = true -> get_extension h id = lookup (extensions h) id.
 Proof. intros Hx. unfold get_extension, lookup. rewrite Hx. reflexivity. Qed.
+
+(* the raw (RFC 3550) view: any block whose profile is neither 0xBEDE nor 0x1000 is kept as the
+   byte string handed to Unmarshal, under the single id 0; the RFC 8285 views refuse it *)
+Theorem raw_view p0 p1 rest id : 0 <= p0 < 256 -> 0 <= p1 < 256 ->
+  be16 p0 p1 <> profile_one_byte -> be16 p0 p1 <> profile_two_byte ->
+  let buf := p0 :: p1 :: rest in
+  raw_unmarshal buf = Ok buf /\ raw_get_ids buf = [0] /\
+  raw_get buf id = (if id =? 0 then Some buf else None) /\
+  onebyte_unmarshal buf = Err ENotFound /\ twobyte_unmarshal buf = Err ENotFound.
+Proof.
+  intros H0 H1 Hn1 Hn2 buf. unfold raw_unmarshal, onebyte_unmarshal, twobyte_unmarshal, view_profile, buf.
+  replace (be16 p0 p1 =? profile_one_byte) with false by lia.
+  replace (be16 p0 p1 =? profile_two_byte) with false by lia. repeat split.
+Qed.
+
+(* and the other way round: an RFC 8285 block is refused by the raw view *)
+Theorem raw_view_refuses_8285 a b rest :
+  raw_unmarshal (190 :: 222 :: a :: b :: rest) = Err ENotFound /\
+  raw_unmarshal (16 :: 0 :: a :: b :: rest) = Err ENotFound.
+Proof. split; reflexivity. Qed.
+
+(* every view re-serialises what it holds byte-identically: Marshal is the stored buffer, MarshalTo
+   writes exactly those bytes in front of the untouched rest of a sufficient destination and
+   refuses a shorter one, MarshalSize is the length *)
+Theorem view_marshal_identity payload dst :
+  (zlen payload <= zlen dst ->
+     view_marshal_to payload dst = Ok (payload ++ drop (zlen payload) dst, zlen payload)) /\
+  (zlen dst < zlen payload -> view_marshal_to payload dst = Err EShortBuffer).
+Proof.
+  unfold view_marshal_to. split; intros H.
+  - replace (zlen dst <? zlen payload) with false by lia. reflexivity.
+  - replace (zlen dst <? zlen payload) with true by lia. reflexivity.
+Qed.
